@@ -290,6 +290,49 @@ class FnSummary:
         self.fn = None
 
 
+_symn = [0]
+
+
+def symbolic_of_type(ex, ty, name, depth=0):
+    """an arbitrary value of a Rust type, from its printed name: integers, bool, Option / tuples / std time types of those, and
+    structs whose field types are known from the sources.  None when the type is not understood."""
+    from .parser import split_top
+    ty = ty.strip()
+    _symn[0] += 1
+    tag = '%s_%d' % (name, _symn[0])
+    if depth > 4:
+        return None
+    if ty in INTTY:
+        v = z3.Int(tag); lo, hi = INTTY[ty]; ex.side.append(z3.And(v >= lo, v <= hi)); return v
+    if ty == 'bool':
+        return z3.Bool(tag)
+    m = re.match(r'(?:std::option::|core::option::)?Option<(.+)>$', ty)
+    if m:
+        inner = symbolic_of_type(ex, m.group(1), name + '_some', depth + 1)
+        if inner is None:
+            return None
+        d = z3.Int(tag + '_is_some'); ex.side.append(z3.And(d >= 0, d <= 1))
+        return Enum(d, {'None': UNIT, 'Some': Struct([inner])})
+    if ty.startswith('(') and ty.endswith(')'):
+        parts = [x for x in split_top(ty[1:-1]) if x.strip()]
+        vals = [symbolic_of_type(ex, x, name + '_%d' % i, depth + 1) for i, x in enumerate(parts)]
+        return None if any(v is None for v in vals) else Struct(vals)
+    if re.fullmatch(r'(?:std::time::)?(SystemTime|Instant|Duration)', ty):
+        v = z3.Int(tag + '_ns'); ex.side.append(v >= 0); return Struct([v])
+    b = base_type_name(ty)
+    if b == 'timespec':
+        return Struct([z3.Int(tag + '_s'), z3.Int(tag + '_n')])
+    ftys = ex.prog.struct_field_types.get(b)
+    if ftys:
+        vals = [symbolic_of_type(ex, x, name + '_f%d' % i, depth + 1) for i, x in enumerate(ftys)]
+        return None if any(v is None for v in vals) else Struct(vals)
+    if b in ex.prog.enums and not any(True for _ in ()):        # a field-less enum of the sources: any of its discriminants
+        tab = ex.prog.enums[b]
+        d = z3.Int(tag + '_disc'); ex.side.append(z3.Or([d == x for x in tab.values()]))
+        return Enum(d, {})
+    return None
+
+
 def summarise(ex, fn, args, st, watch_mem=(), obj_key=None):
     mem0 = {k: st.mem.get(k) for k in watch_mem}      # symbolic entry state of the watched memory
     heads, succ = loop_heads(fn)
@@ -319,7 +362,12 @@ def summarise(ex, fn, args, st, watch_mem=(), obj_key=None):
                 var = z3.Int('%s_%s' % (fn.name.split('::')[-1], l)) if ty != 'bool' else z3.Bool('%s_%s' % (fn.name.split('::')[-1], l))
                 S.carried[l] = (var, ty); init[l] = var
             else:
-                init[l] = None         # must be written before it is read in every iteration
+                # structured loop-carried state (e.g. a cache in an Option): an arbitrary value of its type when the type is
+                # understood, otherwise it must be written before it is read in every iteration
+                sv = symbolic_of_type(ex, ty, '%s_%s' % (fn.name.split('::')[-1], l)) if ty and v is not None else None
+                init[l] = sv
+                if sv is not None:
+                    S.carried_struct = getattr(S, 'carried_struct', {}); S.carried_struct[l] = (sv, ty)
         else:
             same_everywhere = all(_same_val(a.locals.get(l), v) for a in at_head)
             if not same_everywhere:
